@@ -559,6 +559,10 @@ pub fn run() {
     let mut rep = Reporter::new("C40", args.seed);
     let steps = 500;
     if let Some(case) = args.replay_case() {
+        // a replay descriptor of another stage / another test of this property: not ours, nothing to do
+        if case["engine"].as_str() != Some("hv_sim_b") || case["test"].as_str() != Some("c40_paxos") {
+            return;
+        }
         let np = case["proposers"].as_u64().unwrap_or(2) as usize;
         let st = case["steps"].as_u64().unwrap_or(steps as u64) as usize;
         let seed = case["sched_seed"].as_u64().expect("sched_seed");
